@@ -40,10 +40,10 @@ CHECKS["C02"] = dict(cat=MC, engine="E2 xseq (all rule lists x request grid thro
    text="Every rule list up to length 3 (thorough: 4) over {no filter, two request-dependent filters, a filter that fails to evaluate} x {A,B,deny}, for 12 (thorough 96) requests and two upstream feature sets, is installed with the real set_rules and decided by the real process_request; exactly the predicted recorder is contacted once (or none), the recorded connector matches, refusal runs on_error only and no payload byte reaches an origin. All request attributes and cidr_match (every prefix length, network boundaries, both families) are compared with the connection's values / bit-mask containment.",
    note="Trusts: the 6-line reference and recorder connectors. Not covered: lists longer than 4; filters beyond the 4 classes (C08); real connectors' feature sets (C17 covers the balancer).",
    ref="DESIGN.md §3 C02")
-CHECKS["C14"] = dict(cat=MC, engine="E1 xsched (deviation-bounded DFS over schedules of the real futures, scripted endpoints, paused tokio clock)",
-   technique="stateless exhaustive exploration (DFS with replay, preemption/deviation bound 2, thorough 3) of all schedules of real handshake / API-handler / process_request / GC futures with a client stalled after k bytes for every k; deadlock/wedge oracle at every terminal state",
-   text="For every stall offset k of an HTTP-style client, every API handler (live, history, rules GET/POST, metrics, logrotate, status), a complete fresh connection (create_context, handshake, routing, relay, finish), optionally a second stalled client, a request whose upstream never answers and the GC, every schedule within the deviation bound is executed on the real code; at quiescence only the stalled peers' own futures may remain blocked and the API call and the fresh connection must have been served.",
-   note="Trusts: the explorer's ownership of scheduling (replays compared; HashMap-order divergences retried). Handshake-phase writes are always accepted. Real-socket accept paths (SOCKS, QUIC) are not reachable in memory.",
+CHECKS["C14"] = dict(cat=MC, engine="E1 xsched (deviation-bounded DFS over schedules of the real futures, scripted endpoints, paused tokio clock) + E4 real binary (stall matrix)",
+   technique="stateless exhaustive exploration (DFS with replay, preemption/deviation bound 2, thorough 3) of all schedules of real handshake / API-handler / process_request / GC futures with a client stalled after k bytes for every k; deadlock/wedge oracle at every terminal state; real-socket enumeration of stalled state x probe with deadlines",
+   text="For every stall offset k of an HTTP-style client, every API handler (live, history, rules GET/POST, metrics, logrotate, status), a complete fresh connection (create_context, handshake, routing, relay, finish), optionally a second stalled client, a request whose upstream never answers and the GC, every schedule within the deviation bound is executed on the real code; at quiescence only the stalled peers' own futures may remain blocked and the API call and the fresh connection must have been served. Real binary: a client stopped after k bytes of the handshake (every k in thorough) on http, socks5, socks5+auth, socks4, socks4a, inside and behind the TLS handshake of https / socks+tls; a hanging auth command; requests stuck on upstream proxies that never reply or are mute (http, socks, TLS); tunnels whose origin / client does not read (http, socks5, reverse); useSplice true/false; each state alone and all at once; 7 API calls and a fresh echo round trip on 8 listeners (incl. QUIC through a second proxy) must each finish within 3 s (observed worst 31 ms).",
+   note="Trusts: the explorer's ownership of scheduling (replays compared; HashMap-order divergences retried). Handshake-phase writes are always accepted in memory. E4 part: kernel scheduling uncontrolled; a QUIC client stalled inside its own handshake, TPROXY and UDP sessions are not stalled.",
    ref="DESIGN.md §3 C14")
 CHECKS["C17"] = dict(cat=MC, engine="E3 loom (real LoadBalanceConnector::connect, cursor as loom atomic) + E2 xseq",
    technique="loom exhaustive interleaving exploration (preemption bound 3, thorough 4) of 2-3 threads selecting through the real connect(); exhaustive sequential windows/offsets for round robin; hashBy stickiness over key expressions x request pool",
@@ -135,7 +135,7 @@ def main():
         "engines": [
             {"name": "E1 xsched", "path": "harness/src/verif/xsched.rs", "serves_properties": ["C01", "C04", "C06", "C14", "C15", "C16"], "kind_free_text": "stateless deviation-bounded DFS over task schedules and scripted environment answers of real async code"},
             {"name": "E3 loom", "path": "harness/src/verif/c17.rs", "serves_properties": ["C17"], "kind_free_text": "loom exhaustive interleavings of the real load balancer (feature loomlb => cfg(redproxy_verif_loom))"},
-            {"name": "E4 xnet", "path": "e4/", "serves_properties": ["C01", "C04", "C05", "C06", "C07", "C10", "C13", "C15", "C18", "C19"], "kind_free_text": "real-socket script/fault enumeration against the real binary (Python drivers, kernel scheduling uncontrolled)"},
+            {"name": "E4 xnet", "path": "e4/", "serves_properties": ["C01", "C04", "C05", "C06", "C07", "C10", "C13", "C14", "C15", "C18", "C19"], "kind_free_text": "real-socket script/fault enumeration against the real binary (Python drivers, kernel scheduling uncontrolled)"},
             {"name": "E2 xseq", "path": "harness/src/verif/", "serves_properties": [p for p in CHECKS], "kind_free_text": "bounded-exhaustive operation-sequence / input-shape enumeration on the real code vs reference model"},
         ],
         "checks": checks,
